@@ -132,11 +132,72 @@ def command_level(ctx, thorough):
                 e["status"].append(str((a.get("obiclean_status") or {}).get(n, "missing")))
                 e["weight"].append(int((a.get("obiclean_weight") or {}).get(n, -1)))
             evs.append(e)
+    # the same sample given without a merged_sample map: as (count, sample) attributes, and as a count alone (a single
+    # PCR, e.g. plain obiuniq output: obiclean files the sequences under the sample "NA")
+    for form in ("sample-attribute", "count-only"):
+        for n in ("inv", "fam0"):
+            m = samples[n]
+            fn2 = os.path.join(d, "in_%s_%s.fa" % (form, n))
+            with open(fn2, "w") as f:
+                for s in sorted(m):
+                    ann = {"count": m[s]}
+                    if form == "sample-attribute":
+                        ann["sample"] = n
+                    f.write(">%s %s\n%s\n" % (ids[s], json.dumps(ann), s))
+            r = ctx.run_many([{"argv": [os.path.join(bindir, "obiclean"), "--max-cpu", "2", "-s", "sample", fn2]}], timeout=300)[0]
+            if r["rc"] != 0:
+                raise vlib.Inconclusive("obiclean failed: " + r["err"][-500:])
+            key = n if form == "sample-attribute" else "NA"
+            ann = {}
+            for line in r["out"].decode().split("\n"):
+                if line.startswith(">"):
+                    name, _, rest = line[1:].partition(" ")
+                    ann[name] = json.loads(rest[:rest.rindex("}") + 1])
+            seqs = sorted(m)
+            e = {"kind": "cmd", "argv": "obiclean --max-cpu 2 -s sample  [%s input]" % form, "sample": n,
+                 "seqs": [list(s) for s in seqs], "counts": [m[s] for s in seqs], "ratio": [1, 1], "status": [], "weight": []}
+            for s in seqs:
+                a = ann.get(ids[s], {})
+                e["status"].append(str((a.get("obiclean_status") or {}).get(key, "missing")))
+                e["weight"].append(int((a.get("obiclean_weight") or {}).get(key, -1)))
+            evs.append(e)
+    # several thousand sequences (the command annotates them by batches of 1000 on all its workers): the head flag and
+    # the four counts written on a record are those of its own status map
+    big = os.path.join(d, "big.fa")
+    with open(big, "w") as f:
+        k = 0
+        for fam in range(70):
+            root = "".join(rng.choice("acgt") for _ in range(24))
+            vs = {root}
+            while len(vs) < 45:
+                p_ = rng.choice(sorted(vs))
+                vs.add(sub(p_, rng.randrange(len(p_))))
+            for v in sorted(vs):
+                k += 1
+                ms = {"s%d" % x: rng.choice([1, 2, 5, 30]) for x in rng.sample(range(8), rng.randint(1, 4))}
+                f.write(">b%d {\"count\":%d,\"merged_sample\":%s}\n%s\n" % (k, sum(ms.values()), json.dumps(ms), v))
+    for rep in range(2):
+        r = ctx.run_many([{"argv": [os.path.join(bindir, "obiclean"), "--max-cpu", "16", "-s", "sample", big]}], timeout=600)[0]
+        if r["rc"] != 0:
+            raise vlib.Inconclusive("obiclean failed: " + r["err"][-500:])
+        for line in r["out"].decode().split("\n"):
+            if line.startswith(">"):
+                name, _, rest = line[1:].partition(" ")
+                a = json.loads(rest[:rest.rindex("}") + 1])
+                st = a.get("obiclean_status") or {}
+                evs.append({"kind": "rec", "argv": "obiclean --max-cpu 16 -s sample big.fa", "sample": name,
+                            "st": [str(st[x]) for x in sorted(st)], "head": 1 if a.get("obiclean_head") else 0,
+                            "hc": int(a.get("obiclean_headcount", -1)), "ic": int(a.get("obiclean_internalcount", -1)),
+                            "sc": int(a.get("obiclean_singletoncount", -1)), "n": int(a.get("obiclean_samplecount", -1))})
     tr = ctx.path("cmdtrace.ndjson")
     vlib.write_ndjson(tr, evs)
     events, rejects = ctx.trace_validate("CleanTrace", "CleanTrace.cfg", tr, timeout=1500)
     for r in rejects:
         ev = events[r["l"] - 1]
+        if ev["kind"] == "rec":
+            ctx.violation("C13.cmd." + r["why"], "counts", "%s: record %s has statuses %s but head=%d headcount=%d internalcount=%d singletoncount=%d samplecount=%d"
+                          % (ev["argv"], ev["sample"], ev["st"], ev["head"], ev["hc"], ev["ic"], ev["sc"], ev["n"]), ev)
+            continue
         ctx.violation("C13.cmd." + r["why"], "sample=%s %s" % (ev["sample"], ev["argv"].split("sample", 1)[1].strip() or "default"),
                       "%s, sample %s (%d sequences): statuses %s weights %s rejected by CleanTrace" %
                       (ev["argv"], ev["sample"], len(ev["seqs"]), ev["status"], ev["weight"]), ev)
